@@ -237,7 +237,8 @@ def _update(run, prog, cls):
 def _key_iter_forms(values):
     """Site-stripped forms denoting the key set of the argument."""
     k = ("res", "@", ".keys", (values,), ())
-    return [values, ("new", "@", "set", (values,)), ("new", "@", "set", (k,)), k]
+    return [values, ("new", "@", "set", (values,)), ("new", "@", "set", (k,)), k,
+            ("fn", "frozenset", (values,)), ("fn", "frozenset", (k,))]
 
 
 def _tracker_of(e, T, key, created=()):
